@@ -379,7 +379,7 @@ func init() {
 			bound = 3
 		}
 		for i, in := range twoListenerInputs() {
-			engine.ExploreS(ctx, twoListeners(i, in), engine.SConfig{Bound: bound, Shard: ctx.Shard, NShards: ctx.NShards, Deadline: ctx.Deadline})
+			engine.ExploreS(ctx, twoListeners(i, in), engine.SConfig{BothPolicies: true, Bound: bound, Shard: ctx.Shard, NShards: ctx.NShards, Deadline: ctx.Deadline})
 		}
 		depth := 3
 		if ctx.Tier == "thorough" {
